@@ -613,10 +613,18 @@ func (fr *frame) binop(x *ssa.BinOp, st *state) {
 		}
 	case token.OR:
 		bits, signed := intBits(x.Type())
-		if bits == 8 && !signed {
-			set("(bor8 " + a.S + " " + b.S + ")")
-		} else if c, ok := constUint(x.Y); ok && !signed {
+		if c, ok := constUint(x.Y); ok && !signed {
+			// x | c = x + c - (x & c): linear over mod/div by constants
 			set("(- (+ " + a.S + " " + fmt.Sprint(c) + ") " + andConst(a.S, c) + ")")
+		} else if c, ok := constUint(x.X); ok && !signed {
+			set("(- (+ " + b.S + " " + fmt.Sprint(c) + ") " + andConst(b.S, c) + ")")
+		} else if mask, inner, ok := maskedOperand(x.Y); ok && !signed && popcount(mask) <= 4 {
+			// x | (y & MASK) with a few mask bits: add each mask bit that y has and x lacks
+			set(orMasked(a.S, fr.val(inner).S, mask))
+		} else if mask, inner, ok := maskedOperand(x.X); ok && !signed && popcount(mask) <= 4 {
+			set(orMasked(b.S, fr.val(inner).S, mask))
+		} else if bits == 8 && !signed {
+			set("(bor8 " + a.S + " " + b.S + ")")
 		} else {
 			g.rejectf("bitwise | on %s", x.Type())
 			set("0")
@@ -647,6 +655,47 @@ func (fr *frame) binop(x *ssa.BinOp, st *state) {
 		g.rejectf("integer operator %s", x.Op)
 		set("0")
 	}
+}
+
+// maskedOperand: v is `y & MASK` (constant mask on either side).
+func maskedOperand(v ssa.Value) (uint64, ssa.Value, bool) {
+	bo, ok := v.(*ssa.BinOp)
+	if !ok || bo.Op != token.AND {
+		return 0, nil, false
+	}
+	if c, ok := constUint(bo.Y); ok {
+		return c, bo.X, true
+	}
+	if c, ok := constUint(bo.X); ok {
+		return c, bo.Y, true
+	}
+	return 0, nil, false
+}
+
+func popcount(c uint64) int {
+	n := 0
+	for ; c != 0; c &= c - 1 {
+		n++
+	}
+	return n
+}
+
+func bitTerm(x string, k uint) string {
+	if k == 0 {
+		return "(>= (mod " + x + " 2) 1)"
+	}
+	return "(>= (mod (div " + x + " " + fmt.Sprint(uint64(1)<<k) + ") 2) 1)"
+}
+
+// orMasked encodes a | (b & mask) for non-negative a, b.
+func orMasked(a, b string, mask uint64) string {
+	parts := []string{a}
+	for k := uint(0); k < 64; k++ {
+		if mask&(1<<k) != 0 {
+			parts = append(parts, "(ite (and "+bitTerm(b, k)+" (not "+bitTerm(a, k)+")) "+fmt.Sprint(uint64(1)<<k)+" 0)")
+		}
+	}
+	return "(+ " + strings.Join(parts, " ") + ")"
 }
 
 // andConst encodes x & c for a non-negative x and constant c as arithmetic over bit runs.
